@@ -203,7 +203,7 @@ package openapi3
 //@   ensures [verdict] (result == nil) <==> validObjectIn(schema, settings, value)
 //@   ensures [nonempty-multi] typeof(result) == type MultiError ==> len(result.(MultiError)) > 0
 //@   option marks-child-errors yes
-//@   tag C01 C10 C12
+//@   tag C01 C06 C10 C12
 
 // ---- null, boolean ----
 //@ spec permitsNull(s *Schema) bool := s.Nullable || includes(s.Type, "null")
